@@ -64,6 +64,9 @@ def check(run):
                     rsp["cases"], rsp["distinct"], len(rsp["failures"]))
     if rsp["failures"]:
         raise CheckerError("A-numpy assumption of the load_subs contract fails: %s" % rsp["failures"][0])
+    run.assume("A-spmd / A-mpi for load_subs (scatter delivers piece r to rank r; gather / bcast as in C13)",
+               "A-numpy: np.array_split(arange(N), P)[q] = arange(lo(q), lo(q+1)) (validated at run time); A-lemma: every position of a flattened list of lists has an owning piece (prefix sums of non-negative lengths)",
+               "rows of the csv file are opaque; the per-entry parsing loop between the two verified regions of load_subs is decided by the bounded round trip")
     run.assume("lemma library (assumed): the fold of a filtered list equals the conditional fold of the list (fusion), uniqueness of the conditional fold",
                "parameter maps form a monoid under composition (associative, identity); strings are abstract tokens denoting maps",
                "precondition of simplify_inv_subs: every element of all_dup is self-inverse -- discharged for get_all_dup: structural obligation (every listed entry is an instance of a template) + three involution lemmas")
